@@ -3667,6 +3667,51 @@ def _convert_to_string_formatting(fstring: ast.JoinedStr) -> Tuple[str, Sequence
     return format_string, format_args
 
 
+def _logging_names(root: ast.AST) -> Collection[str]:
+    """Find which of the names logging, log and logger may be taken for the logging module or a
+    logger. A name that the file does not bind at all is accepted (star import, code fragment);
+    a name that the file binds is accepted if it is only bound by imports or, for log and
+    logger, by assigning the result of logging.getLogger(...) / getLogger(...)."""
+    names = {"logging", "log", "logger", "getLogger"}
+    accepted = set()
+    for node in core.walk(root, ast.Import):
+        accepted.update(alias for alias in node.names if alias.name.split(".")[0] == "logging")
+    for node in core.walk(root, ast.ImportFrom(module="logging", level=0)):
+        accepted.update(alias for alias in node.names if alias.name == "getLogger")
+    for node in core.walk(root, ast.ImportFrom):
+        accepted.update(
+            alias for alias in node.names if (alias.asname or alias.name) in {"log", "logger"}
+        )
+    get_logger = ast.Call(
+        func=(
+            ast.Name(id="getLogger"),
+            ast.Attribute(value=ast.Name(id="logging"), attr="getLogger"),
+    ))
+    logger_name = ast.Name(id=("log", "logger"))
+    for node in core.walk(root, ast.Assign(targets=[logger_name], value=get_logger)):
+        accepted.add(node.targets[0])
+    for node in core.walk(root, ast.AnnAssign(target=logger_name, value=get_logger)):
+        accepted.add(node.target)
+
+    rebound = set()
+    for node, name in _iter_identifier_mentions(root):
+        if name not in names or node in accepted:
+            continue
+        if isinstance(node, (ast.Attribute, ast.keyword, ast.Global, ast.Nonlocal)):
+            continue
+        if isinstance(node, ast.Name) and isinstance(node.ctx, ast.Load):
+            continue
+        rebound.add(name)
+
+    if rebound & {"logging", "getLogger"}:
+        # Loggers made by something else that is called logging.getLogger or getLogger
+        for node in accepted:
+            if isinstance(node, ast.Name):
+                rebound.add(node.id)
+
+    return names - rebound - {"getLogger"}
+
+
 @processing.fix
 def deinterpolate_logging_args(source: str) -> str:
     """De-interpolate logging arguments.
@@ -3687,11 +3732,14 @@ def deinterpolate_logging_args(source: str) -> str:
     """
     root = core.parse(source)
     logging_functions = ("info", "debug", "warning", "error", "critical", "exception", "log")
-    logging_module = ast.Name(id="logging")
-    logger_object = ast.Name(id=("log", "logger"))
+    # The module and the loggers are recognised by name: not when the file gives the name
+    # another meaning
+    logging_names = tuple(_logging_names(root))
+    if not logging_names:
+        return
     template = ast.Call(
         func=ast.Attribute(
-            value=(logging_module, logger_object),
+            value=ast.Name(id=logging_names),
             attr=core.Wildcard("function_name", logging_functions),
         ),
         args=list,
